@@ -47,6 +47,9 @@ BEH_W_ALL = [6, 4, 2, 2, 2, 2, 1, 1, 1, 1]
 NET_FAULTS = [F_REFUSED, F_RESET_BEFORE, F_RESET_AFTER, F_TIMEOUT, F_TIMEOUT_AFTER, F_HTTP500, F_SHORT_LEN,
               F_CUT_CLOSE, F_GARBAGE]
 ORGFID = [(None, None), ("ORGX", "1"), ("ORGX", "2"), ("Org & Co", "1")]
+# institutions that share one URL (tenants of one processor) and differ only in ORG / FID
+TENANTS = [[("CU", "4410"), ("WEST/CU", "4410")], [("CU", "4410"), ("cu", "4410")], [("CU", "4410"), ("CU", "4411")],
+           [("WEST/CU", "4410"), ("EAST/CU", "4410")]]
 VERSIONS = [203, 102, 220, 103, 151, 160, 200, 211]
 
 
@@ -405,6 +408,12 @@ class C15(World):
             fi = self.add_fi(i, ch.pick("fi.svc", 3), False, ["v1u", "v1c"][ch.pick("fi.form", 2)],
                              ch.flag("fi.pretty", 0.3), msgsets=("BANK",), url_index=urls[i])
             fi.behaviour_fn = self.behaviour
+        if variant != 2 and ch.flag("cfg.tenants", 0.25):
+            base = self.fis[0]
+            for j, key in enumerate(TENANTS[ch.pick("cfg.tenants.set", len(TENANTS))]):
+                t = self.add_tenant(base, key, "tu"[j], 8 + j, bool(ch.pick("cfg.tenants.same_svc", 2)))
+                t.behaviour_fn = self.behaviour
+            sim.count("probe.multi_tenant_runs")
         self.faults_on = ch.flag("cfg.faults", 0.5)
         if self.faults_on:
             self.behs, self.beh_w = BEH_ALL, BEH_W_ALL
@@ -416,8 +425,10 @@ class C15(World):
             n_slots = 1
         slots = []
         for j in range(n_slots):
-            fi = self.fis[ch.pick("id.fi", n_fi)]
+            fi = self.fis[ch.pick("id.fi", len(self.fis))]
             org, fid = ORGFID[ch.pick("id.orgfid", len(ORGFID))]
+            if fi.tenant:
+                org, fid = fi.tenant
             ver = VERSIONS[ch.pick("id.version", len(VERSIONS))]
             pretty = ch.flag("id.pretty", 0.2)
             close = True if ver >= 200 else not ch.flag("id.unclosed", 0.4)
@@ -446,6 +457,11 @@ class C15(World):
             sim.log("config " + idn.describe())
         for fi in self.fis:
             sim.log(f"config server {fi.name} profile-url={fi.prof_url} service-url={fi.svc_url} form={fi.form}")
+        for idn in self.idents:
+            if idn.org and "/" in idn.org:
+                # an ORG with a path separator names a file in a sub-directory of the cache directory; the library
+                # creates only the cache directory itself, so the sub-directory is taken to exist already
+                self.fs.makedirs(f"{DATA_DIR}/ofxtools/fiprofiles/{idn.org.rsplit('/', 1)[0]}")
         if n_fi >= 2 and ch.flag("cfg.legacy_files", 0.2):
             # the data directory is not always virgin: files written by an earlier version of the library under
             # its old naming scheme (<org>-<fid>.profrs), each holding a valid profile of *some* institution
